@@ -4,7 +4,7 @@
   `accepts` is computed from tables the translator re-extracts from the source on every run:
   every `unsafe impl Send/Sync` with its bounds, the signatures of the two entry `query` methods
   (is the returned views' lifetime the `&mut self` borrow?), the `SubViewable` impl table.  The
-  theorems are kernel decisions over the *whole* program family (253 programs).  The correspondence
+  theorems are kernel decisions over the *whole* program family (272 programs).  The correspondence
   check instantiates every program as Rust source and compares rustc's verdict with `accepts`.
 
   The full statement `∀ p ∈ family, accepts p → Sound p` is FALSE on the current tree: repeated
